@@ -260,7 +260,8 @@ def root_development(
 
         # Limit rooting depth if groundwater table is present (roots cannot
         # develop below the water table)
-        if (water_table_presence == 1) and (NewCond_zGW > 0):
+        # (a depth of 0 is a table at the soil surface; negative means no table)
+        if (water_table_presence == 1) and (NewCond_zGW >= 0):
             if NewCond_Zroot > NewCond_zGW:
                 NewCond_Zroot = float(NewCond_zGW)
                 if NewCond_Zroot < Crop.Zmin:
